@@ -51,9 +51,9 @@ def shape : Expr → Shape
   | .bot => .bot
   | .sc s => .sc s
   | .nil => .st
-  | .field .. => .st
-  | .pat .. => .st
-  | .ell _ => .st
+  | .field _ _ _ rest => Shape.st.meet (shape rest)
+  | .pat _ _ rest => Shape.st.meet (shape rest)
+  | .ell rest => Shape.st.meet (shape rest)
   | .emb e rest => (shape e).meet (shape rest)
   | .own e rest => (shape e).meet (shape rest)
   | .close e => shape e
